@@ -76,6 +76,9 @@ func Replay(path string) int {
 		return 2
 	}
 	o := RunCase(doc.Case, RunOpts{})
+	if o.Verdict == "stall" {
+		o = classifyStall(doc.Case, o)
+	}
 	class := violationClass(o)
 	fmt.Printf("replay: verdict=%s class=%s detail=%s\n", o.Verdict, o.Class, o.Detail)
 	if doc.Outcome != nil {
